@@ -280,7 +280,7 @@ func (s *respStreamClient) DialStream(ctx context.Context, addr conn.Addr, paylo
 }
 
 func init() {
-	register(engine{name: "ss2022-client-resp", share: 20,
+	register(engine{name: "ss2022-client-resp", bubble: true, share: 20,
 		gen: func(r *common.Rng, i int) Case {
 			c := Case{Entry: "ss2022-client-resp", Pre: true, N: common.Pick(r, []int{0, 0, 0, 1, 2, 3, 4, 5, 6, 7, 8, 9}), TsOff: common.Pick(r, []int64{0, 10, -10}),
 				PL: common.Pick(r, []int{1, 100, 70000}), Hex: hx(r.Bytes(common.Pick(r, []int{1, 2, 100, 4000, 65535})))}
